@@ -18,7 +18,7 @@ sys.setrecursionlimit(20000)
 from pyvc.harness import Ctx, PROVED, REFUTED, UNDECIDED, ERROR   # noqa: E402
 from pyvc.interp import Interp                                     # noqa: E402
 from pyvc.path import STATS                                        # noqa: E402
-from pyvc.values import Unsupported                                # noqa: E402
+from pyvc.values import Unsupported, FrameViolation                                # noqa: E402
 
 ASSUMED_SEMANTICS = [
     'types as preconditions: parameters have the types their annotations / dataclass fields state',
@@ -92,6 +92,8 @@ def main():
         t_run = time.time() - t0
         ctx.discharge_all()
         ctx.notes.append(f'phases: generation {t_run:.1f}s, discharge {time.time() - t0 - t_run:.1f}s')
+    except FrameViolation as e:
+        status, message = 'undecided', f'frame: {e} (outside a contract that could attribute it)'
     except Unsupported as e:
         status, message = 'undecided', f'unsupported construct / drift: {e}'
         if a.verbose:
